@@ -63,3 +63,6 @@ Theorem cache_seeding_is_source :
     gen_index_seed k c = durable_index k c /\
     gen_progress_seed k c = (if limited k then Some (c_limit c, durable_total k c) else None).
 Proof. intros k c. destruct k; split; reflexivity. Qed.
+
+Theorem other_party_is_source : forall p k, gen_OtherParty p k = other_party p k.
+Proof. reflexivity. Qed.
